@@ -455,7 +455,8 @@ def main():
             "baseline_off_cmd": "cd /repo && cargo test --workspace --no-fail-fast --offline",
             "source_commits": ["verif hooks: cargo feature 'verif' with line-protocol driver, table dump, TCB table accessors",
                                "verif hooks: dump the SMB security blobs with the tables (feature 'verif')",
-                               "verif hook: ADV <seconds> driver command (advances the clocks through the harness' preloaded clock shim)"],
+                               "verif hook: ADV <seconds> driver command (advances the clocks through the harness' preloaded clock shim)",
+                               "verif hook: RESET also resets the clock shim's offset"],
             "add_only": True,
         },
         "engines": [{
